@@ -488,7 +488,13 @@ def to_primitive_composition(ctx, facts, roles, comparators, tpn, cfg):
         if hint_args and strip_refs(e) == ("arg", hint_args[0]):
             return "Number"
         return None
-    cases = optnorm.decision_cases(facts, tp, known=known)
+    # read through the private helpers to-primitive calls (a predicate on the hint, say) — but not through the two
+    # functions the clause is about: the number-hint conversion and the string form stay calls in the cases
+    from . import x_ipath
+    keep = {tpn.key} | ({strf.key} if strf is not None else set())
+    cases = x_ipath.decision_cases(facts, tp, lambda c: c.get("key") not in keep, known=known)
+    if cases is None:
+        cases = optnorm.decision_cases(facts, tp, known=known)
     ctx.need(cases is not None, "to-primitive has loops or too many paths to summarise")
     val_arg = [l for l in range(1, tp.arg_count + 1) if tp.local_ty(l).endswith("serde_json::Value")]
     ctx.need(len(val_arg) == 1, "to-primitive's value parameter not identified")
